@@ -182,6 +182,21 @@ fn templates() -> Vec<(&'static str, Tpl)> {
         ("3vl-set-then-return", Tpl::Raw("MATCH (v1:L3) SET v1.k1 = NOT ($p0 AND v1.k2) RETURN v1.k0 AS c0, v1.k1 AS c1".into())),
         ("3vl-distinct-bool", Tpl::Raw("MATCH (v1:L3) RETURN DISTINCT ($p0 AND v1.k2) AS c0".into())),
         ("3vl-list-of-conn", Tpl::Raw("RETURN [$p0 AND true, $p0 OR false, NOT $p0] AS c0, {k0: ($p0 OR false)} AS c1".into())),
+        // --- nested collection literals holding a parameter as an OPERAND of IN / + / = / <> / comparison (class of the
+        // seeded change C35-c: a Value::List operand lowered element-wise, nested lists / maps becoming null)
+        ("nest-in-list", Tpl::Raw("RETURN [1] IN [[$p0], [2]] AS c0, [$p0] IN [[$p0], [2]] AS c1, NOT ([1] IN [[$p0]]) AS c2, ([1] IN [[$p0], [2]]) IS NULL AS c3".into())),
+        ("nest-in-where", Tpl::Raw("MATCH (v1:L3) WHERE [v1.k0, v1.k2] IN [[$p0, true], [2, false]] RETURN v1.k0 AS c0".into())),
+        ("nest-in-where-not", Tpl::Raw("MATCH (v1:L3) WHERE NOT ([v1.k0] IN [[$p0], [$p1]]) RETURN v1.k0 AS c0".into())),
+        ("nest-with-where", Tpl::Raw("MATCH (v1:L3) WITH v1 WHERE [v1.k0] IN [[$p0], [2]] RETURN v1.k0 AS c0".into())),
+        ("nest-concat", Tpl::Raw("RETURN [[$p0], 2] + [3] AS c0, [3] + [[$p0, $p1]] AS c1, [{k0: $p0}] + [4] AS c2".into())),
+        ("nest-eq", Tpl::Raw("RETURN [[$p0], 2] = [[1], 2] AS c0, [[$p0]] <> [[1]] AS c1, [{k0: $p0}] = [{k0: 1}] AS c2, [[$p0]] = [[$p0]] AS c3".into())),
+        ("nest-map-in", Tpl::Raw("RETURN {k0: 1} IN [{k0: $p0}] AS c0, {k0: [$p0]} IN [{k0: [1]}, {k0: [$p1]}] AS c1".into())),
+        ("nest-compare", Tpl::Raw("RETURN [[$p0], 1] < [[2], 1] AS c0, [[$p0]] >= [[1]] AS c1".into())),
+        ("nest-size-head", Tpl::Raw("RETURN size([[$p0], [2]] + [[3]]) AS c0, head([[$p0], 2] + [3]) AS c1".into())),
+        ("nest-set-concat", Tpl::Raw("MATCH (v1:L3) SET v1.k1 = ([[$p0], 2] + [3]) RETURN v1.k0 AS c0".into())),
+        ("nest-set-in", Tpl::Raw("MATCH (v1:L3) SET v1.k1 = ([v1.k0] IN [[$p0], [2]])".into())),
+        ("nest-create-from-in", Tpl::Raw("MATCH (v1:L3) WHERE [v1.k0, 1] IN [[$p0, $p1]] CREATE (v1)-[:T1]->(:L1 {k0: 9})".into())),
+        ("flat-in-control", Tpl::Raw("RETURN 1 IN [$p0, 2] AS c0, [1, $p0] + [3] AS c1, [$p0, 2] = [1, 2] AS c2".into())),
         ("3vl-comprehension-filter", Tpl::Raw("RETURN [x IN [true, false, null] WHERE NOT ($p0 AND x) | x] AS c0, [x IN [true, false, null] | ($p0 OR x)] AS c1".into())),
     ]
 }
